@@ -418,6 +418,8 @@ func (h *H[T]) C19(rc *runCtx) *Violation {
 	p := drawShareProgram(prog, rc.b)
 	sim.Strategy = 1 + sim.Sched.Draw(simrt.NumStrategies-1)
 	sim.StickyP = []int{2, 4, 8, 16}[sim.Sched.Draw(4)]
+	drawInner(sim)
+	rc.tally("inner_gap", spA("%d", sim.InnerG))
 	nr, nw := 0, 0
 	for _, t := range p.tasks {
 		if t.role == roleReader {
@@ -430,8 +432,8 @@ func (h *H[T]) C19(rc *runCtx) *Violation {
 	rc.tally("scenario", scen)
 	rc.tally("strategy", simrt.StrategyNames[sim.Strategy])
 	rc.tally("tasks", spA("%d", len(p.tasks)))
-	rc.cfg = spA("C=%d frames=%d extracap=%d window=%v(start %d of %d) scenario=%s R=%d W=%d ops/task=%d strategy=%s stickyP=%d",
-		p.c, p.frames, p.extraCap, p.window, p.winStart, p.bigFrames, scen, nr, nw, len(p.tasks[0].ops), simrt.StrategyNames[sim.Strategy], sim.StickyP)
+	rc.cfg = spA("C=%d frames=%d extracap=%d window=%v(start %d of %d) scenario=%s R=%d W=%d ops/task=%d strategy=%s stickyP=%d innerG=%d",
+		p.c, p.frames, p.extraCap, p.window, p.winStart, p.bigFrames, scen, nr, nw, len(p.tasks[0].ops), simrt.StrategyNames[sim.Strategy], sim.StickyP, sim.InnerG)
 	sim.Tracef("config: T=%s %s", h.name, rc.cfg)
 	for ti, t := range p.tasks {
 		role := "reader"
